@@ -714,6 +714,21 @@ theorem regAll_mem (O : Oracles) (v : PyVal) : ∀ (fs : List FieldDecl) (f : Fi
     · simpa [hc] using hr.1
     · exact regAll_mem O v fs f hr.2 h' hc
 
+/-! ### positional items in element position -/
+
+theorem emitLW_length (fx : Bool) : ∀ fs : List FieldDecl, (emitLW fx fs).length = fs.length
+  | [] => rfl
+  | f :: fs => by simp [emitLW, emitLW_length fx fs]
+
+theorem jsZip_wrap (R S) : ∀ (fs : List FieldDecl) (ys : List PyVal),
+    jsZip R S (emitL true fs) ys = true → jsZip R S (emitLW true fs) ys = true
+  | [], _, _ => by simp [emitLW, jsZip]
+  | f :: fs, [], _ => by simp [emitLW, jsZip]
+  | f :: fs, y :: ys, h => by
+    simp only [emitL, jsZip, and_true_iff'] at h
+    simp only [emitLW, jsZip, and_true_iff']
+    exact ⟨jsV_elemWrap R S f _ y h.1, jsZip_wrap R S fs ys h.2⟩
+
 /-! ### `AllOf` over raw scalars -/
 
 theorem rawScalar_plain (f : FieldDecl) (h : rawScalar f = true) : plainScalar f = true := by
@@ -766,6 +781,147 @@ theorem c08_sizeOk_of_sameCount (sz : SizeOpts) (n : Nat) (res : R PyVal) (j : P
     simp [sizeOk, h1, h2, geLen, leLen]
   · have : r.length = n := by simpa using h
     rw [this]; exact hsz
+
+/-! ### `OneOf` over options of pairwise different JSON types -/
+
+theorem c08_jkind_raw (f : FieldDecl) (h : (jkind f).isSome = true) : rawScalar f = true := by
+  cases f <;> simp [jkind] at h <;> rfl
+
+/-- an admitted value of the region has the JSON type of the option -/
+theorem c08_vkind_of_admits (O : Oracles) (f : FieldDecl) (v : PyVal) (k : JK) (hk : jkind f = some k)
+    (ha : conforms O f v = true) (hr : regF O f v = true) : vkind v = some k := by
+  cases f <;> simp [jkind] at hk
+  · -- number
+    subst hk
+    simp only [regF, and_true_iff'] at hr
+    cases v <;> simp [jsNumVal] at hr <;> rfl
+  · -- integer
+    subst hk
+    simp only [conforms, aInteger] at ha
+    simp only [regF] at hr
+    cases v <;> simp [notBool] at ha hr <;> rfl
+  · -- string
+    subst hk
+    simp only [conforms, aString] at ha
+    cases v <;> simp at ha <;> rfl
+
+theorem c08_typeIs_mismatch_num (ty : String) (hty : ty = "number" ∨ ty = "integer") (v : PyVal)
+    (hv : vkind v = some .str) : typeIs ty v = false := by
+  cases v <;> simp [vkind] at hv
+  rcases hty with rfl | rfl <;> simp [typeIs]
+
+theorem c08_jsKws_type_false (R S) (ctx rest : List (PyVal × PyVal)) (ty : String) (v : PyVal)
+    (h : typeIs ty v = false) : jsKws R S ctx (kw "type" (.str ty) :: rest) v = false := by
+  simp [jsKws, kw, kwOf, kwOfStr, kwNode, kwLeaf, typeOk, h]
+
+/-- a scalar schema rejects a value of the other JSON type -/
+theorem c08_jsV_mismatch (R S) (f : FieldDecl) (v : PyVal) (k k' : JK) (hk : jkind f = some k)
+    (hv : vkind v = some k') (hne : k ≠ k') : jsV R S (emit true f) v = false := by
+  cases f <;> simp [jkind] at hk
+  · subst hk
+    have hv' : vkind v = some .str := by cases k' <;> simp_all
+    simp only [emit]
+    rw [jsV_dict _ _ _ _ (getKw_ref_numKws _ _ _)]
+    simp only [numKws, List.append_assoc, List.cons_append, List.nil_append]
+    exact c08_jsKws_type_false R S _ _ "number" v (c08_typeIs_mismatch_num "number" (Or.inl rfl) v hv')
+  · subst hk
+    have hv' : vkind v = some .str := by cases k' <;> simp_all
+    simp only [emit]
+    rw [jsV_dict _ _ _ _ (getKw_ref_numKws _ _ _)]
+    simp only [numKws, List.append_assoc, List.cons_append, List.nil_append]
+    exact c08_jsKws_type_false R S _ _ "integer" v (c08_typeIs_mismatch_num "integer" (Or.inr rfl) v hv')
+  · subst hk
+    have hv' : vkind v = some .num := by cases k' <;> simp_all
+    simp only [emit]
+    have hty : typeIs "string" v = false := by cases v <;> simp [vkind] at hv' <;> simp [typeIs]
+    rename_i lo hi pat
+    have href : getKw "$ref" (strKws lo hi pat) = none := by
+      simp [strKws, getKw_append, getKw_optKw, getKw, kw, keyIs]
+    rw [jsV_dict _ _ _ _ href]
+    simp only [strKws, List.append_assoc, List.cons_append, List.nil_append]
+    exact c08_jsKws_type_false R S _ _ "string" v hty
+
+
+theorem c08_contains_map_jkind (f : FieldDecl) : ∀ fs : List FieldDecl, f ∈ fs →
+    (fs.map jkind).contains (jkind f) = true
+  | [], h => by simp at h
+  | g :: fs, h => by
+    rcases List.mem_cons.mp h with rfl | h'
+    · simp
+    · simp only [List.map_cons, List.contains_cons, Bool.or_eq_true]
+      right; exact c08_contains_map_jkind f fs h'
+
+theorem c08_nodupK_inj : ∀ (fs : List FieldDecl), nodupK (fs.map jkind) = true →
+    ∀ f g, f ∈ fs → g ∈ fs → jkind f = jkind g → f = g
+  | [], _, _, _, h, _, _ => by simp at h
+  | h :: t, hnd, f, g, hf, hg, hk => by
+    simp only [List.map_cons, nodupK, and_true_iff'] at hnd
+    rcases List.mem_cons.mp hf with rfl | hf' <;> rcases List.mem_cons.mp hg with rfl | hg'
+    · rfl
+    · have := c08_contains_map_jkind g t hg'
+      rw [← hk] at this
+      rw [this] at hnd
+      simp at hnd
+    · have := c08_contains_map_jkind f t hf'
+      rw [hk] at this
+      rw [this] at hnd
+      simp at hnd
+    · exact c08_nodupK_inj t hnd.2 f g hf' hg' hk
+
+/-- with pairwise different JSON types, the schema of every option judges a value that one option `g`
+    admits exactly as the option itself does: `g` accepts, every other option fails on `type` -/
+theorem c08_oneOf_pointwise (O : Oracles) (R S) (v : PyVal) (k : JK) (fs : List FieldDecl)
+    (hk : fs.all (fun f => (jkind f).isSome) = true) (hnd : nodupK (fs.map jkind) = true)
+    (g : FieldDecl) (hg : g ∈ fs) (hgc : conforms O g v = true) (hgk : jkind g = some k)
+    (hvk : vkind v = some k)
+    (hadm : ∀ f ∈ fs, conforms O f v = true → regF O f v = true ∧ jsV R S (emit true f) v = true) :
+    ∀ f ∈ fs, jsV R S (emit true f) v = conforms O f v := by
+  intro f hf
+  have hsome := List.all_eq_true.mp hk f hf
+  cases hk0 : jkind f with
+  | none => simp [hk0] at hsome
+  | some k0 =>
+    by_cases hkk : k0 = k
+    · subst hkk
+      have : f = g := c08_nodupK_inj fs hnd f g hf hg (by rw [hk0, hgk])
+      subst this
+      rw [hgc]; exact (hadm f hf hgc).2
+    · rw [c08_jsV_mismatch R S f v k0 k hk0 hvk hkk]
+      cases hc : conforms O f v with
+      | false => rfl
+      | true =>
+        exfalso
+        have := c08_vkind_of_admits O f v k0 hk0 hc (hadm f hf hc).1
+        rw [hvk] at this
+        exact hkk (Option.some.inj this).symm
+
+theorem c08_jsCount_eq (O : Oracles) (R S) (v : PyVal) : ∀ fs : List FieldDecl,
+    fs.all (fun f => (jkind f).isSome) = true →
+    (∀ f ∈ fs, jsV R S (emit true f) v = conforms O f v) →
+    jsCount R S (emitL true fs) v = countAdmits O fs v
+  | [], _, _ => rfl
+  | f :: fs, hk, h => by
+    simp only [List.all_cons, and_true_iff'] at hk
+    simp only [emitL, jsCount, countAdmits, h f (by simp),
+      admits_eq_conforms_raw O f v (c08_jkind_raw f hk.1),
+      c08_jsCount_eq O R S v fs hk.2 (fun g hg => h g (by simp [hg]))]
+
+theorem c08_countAdmits_pos (O : Oracles) (v : PyVal) : ∀ fs : List FieldDecl, 0 < countAdmits O fs v →
+    ∃ g ∈ fs, admits O g v = true
+  | [], h => by simp [countAdmits] at h
+  | f :: fs, h => by
+    simp only [countAdmits] at h
+    cases ha : admits O f v with
+    | true => exact ⟨f, by simp, ha⟩
+    | false =>
+      simp only [ha, Bool.false_eq_true, if_false, Nat.zero_add] at h
+      obtain ⟨g, hg, hga⟩ := c08_countAdmits_pos O v fs h
+      exact ⟨g, by simp [hg], hga⟩
+
+theorem jsV_oneOf (R S) (ss : List PyVal) (d : PyVal) :
+    jsV R S (.dict [kw "oneOf" (.list ss)]) d = (jsCount R S ss d == 1) := by
+  simp [jsV, getKw, kw, keyIs, jsKws, kwOf, kwOfStr, kwNode, jsCountV]
+
 
 /-! ### the main induction -/
 
@@ -829,13 +985,13 @@ theorem admits_field (O : Oracles) (S : String → String → Bool)
       simp only [ser] at hj
       obtain ⟨ys, hys, rfl⟩ := sSeq_list _ xs j hj
       simp only [emit]
-      refine jsV_arrOf _ S sz (emit true f) ys (emit_shape true f)
+      refine jsV_arrOf _ S sz (elemWrap f (emit true f)) ys (elemWrap_shape f _ (emit_shape true f))
         (fun h => by simpa [h, hys, distinctImages] using hr.2) ?_ ?_
       · rw [mapE_length _ xs ys hys]; exact hc.1.1.2
       · refine mapE_all (ser O f) _ xs ys ?_ hys
         intro x hx y hy
-        exact admits_field O S hS D f n x hf.2 hrf hd (List.all_eq_true.mp hc.2 x hx)
-          (List.all_eq_true.mp hr.1 x hx) y hy
+        exact jsV_elemWrap _ S f _ y (admits_field O S hS D f n x hf.2 hrf hd (List.all_eq_true.mp hc.2 x hx)
+          (List.all_eq_true.mp hr.1 x hx) y hy)
     | _ => simp [seqElems] at hc
   | .seqPos k fs addl sz, n, v, hf, hrf, hd, hc, hr => by
     intro j hj
@@ -854,12 +1010,12 @@ theorem admits_field (O : Oracles) (S : String → String → Bool)
       have hlen1 : fs.length ≤ xs.length := by simpa using hc.1.2.1
       have hlen : ys.length = xs.length := serZip_length O fs xs ys hlen1 hys
       simp only [emit]
-      refine jsV_arrPos _ S sz addl (emitL true fs) ys
+      refine jsV_arrPos _ S sz addl (emitLW true fs) ys
         (fun h => by simpa [h, hys, distinctImages] using hr.2) ?_ ?_ ?_
       · rw [hlen]; exact hc.1.1.2
-      · exact admits_zip O S hS D fs n xs hf.2 hrf hd hc.2 hr.1 ys hys
+      · exact jsZip_wrap _ S fs ys (admits_zip O S hS D fs n xs hf.2 hrf hd hc.2 hr.1 ys hys)
       · intro ha
-        rw [emitL_length, hlen]
+        rw [emitLW_length, hlen]
         simpa [ha] using hc.1.2.2
     | _ => simp [seqElems] at hc
   | .tupleOf f u, n, v, hf, hrf, hd, hc, hr => by
@@ -875,12 +1031,12 @@ theorem admits_field (O : Oracles) (S : String → String → Bool)
       simp only [ser] at hj
       obtain ⟨ys, hys, rfl⟩ := sSeq_tuple _ xs j hj
       simp only [emit]
-      refine jsV_arrOf _ S { uniq := u } (emit true f) ys (emit_shape true f)
+      refine jsV_arrOf _ S { uniq := u } (elemWrap f (emit true f)) ys (elemWrap_shape f _ (emit_shape true f))
         (fun h => by simp at h; simpa [h, hys, distinctImages] using hr.2) (by simp [sizeOk, geLen, leLen]) ?_
       refine mapE_all (ser O f) _ xs ys ?_ hys
       intro x hx y hy
-      exact admits_field O S hS D f n x hf hrf hd (List.all_eq_true.mp hc.2 x hx)
-        (List.all_eq_true.mp hr.1 x hx) y hy
+      exact jsV_elemWrap _ S f _ y (admits_field O S hS D f n x hf hrf hd (List.all_eq_true.mp hc.2 x hx)
+        (List.all_eq_true.mp hr.1 x hx) y hy)
     | _ => simp at hc
   | .tuplePos fs u, n, v, hf, hrf, hd, hc, hr => by
     intro j hj
@@ -897,9 +1053,9 @@ theorem admits_field (O : Oracles) (S : String → String → Bool)
       have hlen0 : fs.length = xs.length := by simpa using hc.1.2
       have hlen : ys.length = xs.length := serZip_length O fs xs ys (by omega) hys
       simp only [emit]
-      refine jsV_tupKws _ S u (emitL true fs) ys (fun h => by simpa [h, hys, distinctImages] using hr.2) ?_ ?_
-      · exact admits_zip O S hS D fs n xs hf.2 hrf hd hc.2 hr.1 ys hys
-      · rw [emitL_length]; omega
+      refine jsV_tupKws _ S u (emitLW true fs) ys (fun h => by simpa [h, hys, distinctImages] using hr.2) ?_ ?_
+      · exact jsZip_wrap _ S fs ys (admits_zip O S hS D fs n xs hf.2 hrf hd hc.2 hr.1 ys hys)
+      · rw [emitLW_length]; omega
     | _ => simp at hc
   | .mapAny sz, n, v, _, _, _, hc, hr => by
     intro j hj
@@ -930,9 +1086,9 @@ theorem admits_field (O : Oracles) (S : String → String → Bool)
       obtain ⟨r, hr', rfl⟩ := sMap_dict _ kvs j hj
       have hcount := hcount _ rfl
       simp only [emit]
-      have hvals : (dictOfPairs r).all (fun kv => jsV (resolver D S n) S (emit true vf) kv.2) = true := by
-        refine dictOfPairs_all (fun kv => jsV (resolver D S n) S (emit true vf) kv.2) (fun _ => true)
-          (jsV (resolver D S n) S (emit true vf)) (fun kv => by simp) r ?_
+      have hvals : (dictOfPairs r).all (fun kv => jsV (resolver D S n) S (elemWrap vf (emit true vf)) kv.2) = true := by
+        refine dictOfPairs_all (fun kv => jsV (resolver D S n) S (elemWrap vf (emit true vf)) kv.2) (fun _ => true)
+          (jsV (resolver D S n) S (elemWrap vf (emit true vf))) (fun kv => by simp) r ?_
         refine mapE_all _ _ kvs r ?_ hr'
         intro kv hkv y hy
         rcases bindE_eq_ok hy with ⟨k', _, h2⟩
@@ -940,11 +1096,12 @@ theorem admits_field (O : Oracles) (S : String → String → Bool)
         cases h3
         have hckv := List.all_eq_true.mp hc.2 kv hkv
         simp only [and_true_iff'] at hckv
-        exact admits_field O S hS D vf n kv.2 hf.2 hrf hd hckv.2 (List.all_eq_true.mp hr kv hkv) v' hv'
+        exact jsV_elemWrap _ S vf _ v' (admits_field O S hS D vf n kv.2 hf.2 hrf hd hckv.2 (List.all_eq_true.mp hr kv hkv) v' hv')
       cases hkp : (mapKeyPattern k != "") with
-      | true => exact jsV_mapPat _ S k (emit true vf) sz _ hkp hcount hvals
+      | true => exact jsV_mapPat _ S k (elemWrap vf (emit true vf)) sz _ hkp hcount hvals
       | false =>
-        exact jsV_mapOf _ S k (emit true vf) sz _ (by simpa using hkp) (emit_shape true vf) hcount hvals
+        exact jsV_mapOf _ S k (elemWrap vf (emit true vf)) sz _ (by simpa using hkp)
+          (elemWrap_shape vf _ (emit_shape true vf)) hcount hvals
     | _ => simp at hc
   | .struct c fields defaults, n, v, hf, hrf, hd, _, hr => by
     intro j hj
@@ -1045,15 +1202,50 @@ theorem admits_field (O : Oracles) (S : String → String → Bool)
       simp only [ser] at hj
       obtain ⟨ys, hys, rfl⟩ := sSeq_set _ fr xs j hj
       simp only [emit]
-      refine jsV_setOf _ S sz (emit true f) ys (emit_shape true f)
+      refine jsV_setOf _ S sz (elemWrap f (emit true f)) ys (elemWrap_shape f _ (emit_shape true f))
         (by simpa [hys, distinctImages] using hr.2) ?_ ?_
       · rw [mapE_length _ xs ys hys]; exact hc.1.2
       · refine mapE_all (ser O f) _ xs ys ?_ hys
         intro x hx y hy
-        exact admits_field O S hS D f n x hf hrf hd (List.all_eq_true.mp hc.2 x hx)
-          (List.all_eq_true.mp hr.1 x hx) y hy
+        exact jsV_elemWrap _ S f _ y (admits_field O S hS D f n x hf hrf hd (List.all_eq_true.mp hc.2 x hx)
+          (List.all_eq_true.mp hr.1 x hx) y hy)
     | _ => simp at hc
-  | .oneOf _, _, _, hf, _, _, _, _ => by simp [fragF] at hf
+  | .oneOf fs, n, v, hf, hrf, hd, hc, hr => by
+    intro j hj
+    simp only [fragF, typeDisjoint, and_true_iff'] at hf
+    obtain ⟨⟨_, hkAll, hnd⟩, hfl⟩ := hf
+    simp only [RefsFaithful] at hrf
+    simp only [refDepth] at hd
+    simp only [conforms] at hc
+    simp only [regF] at hr
+    simp only [ser] at hj
+    simp only [emit]
+    rw [jsV_oneOf]
+    have hplain : fs.all plainScalar = true := by
+      rw [List.all_eq_true] at hkAll ⊢
+      intro f hfm
+      exact rawScalar_plain f (c08_jkind_raw f (hkAll f hfm))
+    have hjv : j = v := serFirst_plain O fs v j hplain hj
+    subst hjv
+    have hcnt : countAdmits O fs j = 1 := by simpa using hc
+    obtain ⟨g, hg, hga⟩ := c08_countAdmits_pos O j fs (by omega)
+    have hgsome := List.all_eq_true.mp hkAll g hg
+    have hgc : conforms O g j = true := by
+      rw [← admits_eq_conforms_raw O g j (c08_jkind_raw g hgsome)]; exact hga
+    cases hgk : jkind g with
+    | none => simp [hgk] at hgsome
+    | some k =>
+      have hgr := regAll_mem O j fs g hr hg hgc
+      have hvk := c08_vkind_of_admits O g j k hgk hgc hgr
+      have hadm : ∀ f ∈ fs, conforms O f j = true →
+          regF O f j = true ∧ jsV (resolver D S n) S (emit true f) j = true := by
+        intro f hfm hcf
+        have hrf' := regAll_mem O j fs f hr hfm hcf
+        have hp : plainScalar f = true := List.all_eq_true.mp hplain f hfm
+        exact ⟨hrf', (admits_mem O S hS D fs n hfl hrf hd f hfm j hcf hrf') j (ser_plain_conf O f j hp hcf hrf')⟩
+      rw [c08_jsCount_eq O _ S j fs hkAll
+        (c08_oneOf_pointwise O _ S j k fs hkAll hnd g hg hgc hgk hvk hadm), hcnt]
+      rfl
   | .allOf fs, n, v, hf, hrf, hd, hc, hr => by
     intro j hj
     simp only [fragF, and_true_iff'] at hf
